@@ -371,7 +371,7 @@ HARNESSES.append(common.dual_harness(
     ["skactiveml.pool._uncertainty_sampling:UncertaintySampling.query", "skactiveml.pool._query_by_committee:QueryByCommittee.query",
      "skactiveml.classifier._parzen_window_classifier:ParzenWindowClassifier.fit", "skactiveml.utils._aggregation:compute_vote_vectors",
      "skactiveml.base:SkactivemlClassifier._validate_data"],
-    required_witnesses=("some_labeled",), product_abstraction=True))
+    required_witnesses=("some_labeled",), product_abstraction=False, timeout_ms=30000))
 
 
 # ---------------------------------------------------------------- Quire on a caller-owned precomputed kernel matrix
